@@ -277,10 +277,22 @@ pub fn run_gate<K: HKey>(sid: &Value, cfg: &Cfg, ops: &[Value], sel0: usize, scr
         let mut st = Store::<K>::new(&root, &c2);
         let res = st.open_with(&c2);
         let obs = st.observe();
-        st.close();
+        let admitted = st.cas.is_some();
+        if !admitted {
+            st.close();
+        }
         let d2 = dir_digest(&root);
         fs::write(&sp, &orig).unwrap();
         out.emit(&json!({"ev": "gate", "n2": if n2 > i32::MAX as u64 { -1 } else { n2 as i64 }, "ver": ver, "res": res, "same": d1 == d2, "obs": obs}));
+        if admitted {
+            // an admitted open (possibly with the other pre-creation choice) must behave exactly like any other
+            // handle: a few operations that need new cas/ sub-directories, judged like ordinary operations
+            for (j, op) in t["ops"].as_array().cloned().unwrap_or_default().iter().enumerate() {
+                let r = st.exec(op, j);
+                out.emit(&json!({"ev": "op", "i": 2000 + j, "op": op, "res": r, "obs": st.observe()}));
+            }
+            st.close();
+        }
         // a later correct open sees the data unchanged
         let mut st = Store::<K>::new(&root, cfg);
         let r = st.open();
